@@ -1,6 +1,6 @@
 """C01 - no datagram can crash the client: the receive path is total.
 
-Malform.tla (TLC) walks 14 well-formed templates (v1/v2c/v3 x Response/Report x plain/auth/DES/AES x 0..4 varbinds x
+Malform.tla (TLC) walks 15 well-formed templates (v1/v2c/v3 x Response/Report x plain/auth/DES/AES x 0..4 varbinds x
 value types, exception values, a relative-OID name, a plaintext scoped PDU) and applies, at every TLV node, every
 mutation derived from the BER position machine (truncation at every offset; length octet in {0, len-1, len+1, 7f, 80,
 81, 82, 84, 88, ff}; long forms of 1..9 length octets; every tag the library knows, class / constructed bits, long-form
@@ -79,11 +79,81 @@ def api_case(cfg, op, make_dgram):
         s.agent.close()
 
 
+class _NullRec:
+    n = 0
+
+    def emit(self, e):
+        pass
+
+
+def public_api_case(client, cfg, op, make_dgram):
+    """the same stimulus through the PUBLIC API (sync / async SnmpSession; get, get_many and the getnext / getbulk iterators):
+    the Python layer above the socket is part of the receive path.  Returns (exception name, bases, isexc)."""
+    import asyncio
+    from vlib import apidrv
+    oid1, oid2, base = "1.3.6.1.2.1.1.3.0", "1.3.6.1.2.1.1.4.0", "1.3.6.1.2.1"
+    answer = lambda req: [] if req.broken else [(bytes(make_dgram(req)), [])]
+    if client == "sync":
+        api = apidrv.SyncApi(_NullRec(), cfg, answer, timeout=0.08, engine_given=True)
+        try:
+            s = api.session
+            if op == "get":
+                s.get(oid1)
+            elif op == "get_many":
+                s.get_many([oid1, oid2])
+            elif op == "getnext":
+                for n, _ in enumerate(s.getnext(base)):
+                    if n >= 3:
+                        break
+            elif op == "getbulk" and cfg.ver != "v1":
+                for n, _ in enumerate(s.getbulk(base, 5)):
+                    if n >= 6:
+                        break
+            else:
+                s.refresh() if cfg.ver == "v3" else s.get(oid1)
+            return ("", [], False)
+        except BaseException as e:  # noqa
+            name, bases, _ = exc_info(e)
+            return (name, bases, isinstance(e, Exception))
+        finally:
+            api.close()
+
+    async def go():
+        api = await apidrv.AsyncApi.create(_NullRec(), cfg, answer, timeout=0.08, engine_given=True)
+        try:
+            s = api.session
+            if op == "get":
+                await s.get(oid1)
+            elif op == "get_many":
+                await s.get_many([oid1, oid2])
+            elif op == "getnext":
+                n = 0
+                async for _ in s.getnext(base):
+                    n += 1
+                    if n >= 3:
+                        break
+            elif op == "getbulk" and cfg.ver != "v1":
+                n = 0
+                async for _ in s.getbulk(base, 5):
+                    n += 1
+                    if n >= 6:
+                        break
+            else:
+                await (s.refresh() if cfg.ver == "v3" else s.get(oid1))
+            return ("", [], False)
+        except BaseException as e:  # noqa
+            name, bases, _ = exc_info(e)
+            return (name, bases, isinstance(e, Exception))
+        finally:
+            api.close()
+    return asyncio.run(go())
+
+
 def run(tier):
     chk = Check("C01", tier)
     thorough = tier == "thorough"
     rng = random.Random(SEED)
-    chk.rule = ("datagrams: every Malform.tla mutant of 14 templates, every string of <= 2 octets, every string of <= 4 (5) octets over 14 byte classes, mutated "
+    chk.rule = ("datagrams: every Malform.tla mutant of 15 templates, every string of <= 2 octets, every string of <= 4 (5) octets over 14 byte classes, mutated "
                 "plaintext scoped PDUs encrypted under the session key, privacy parameters / ciphertexts of odd sizes; targets: 3 message decoders + value decoder + "
                 "decrypt (Rust), and real sessions of the matching configuration with each of 5 operations pending; distinct = (target, datagram); "
                 "non-trivial = datagram that is not a well-formed message")
@@ -184,6 +254,27 @@ def run(tier):
         chk.case(("api", cfgname, op, mi), nontrivial=m["why"] != "")
         if len(recs) >= 3000:
             flush("ApiBatch")
+    # a sample of the same cases through the public sync / async API (the Python layer is part of the receive path)
+    step = 29 if not thorough else 4
+    npub = 0
+    for ki, (cfgname, op, m, mi) in enumerate(cases):
+        whole = m["mut"] == "none"               # the well-formed templates: every operation through both clients
+        if not whole and (ki + SEED) % step:
+            continue
+        cfg = std[cfgname]
+        if m["t"] == "scoped-plain":
+            continue
+        for client in (["sync", "async"] if whole else [["sync", "async"][(ki // step) % 2]]):
+            try:
+                name, bases, isexc = public_api_case(client, cfg, op, lambda req, m=m, cfg=cfg: patch_ids(m["b"], req, cfg))
+            except BaseException as e:  # noqa
+                name, bases, isexc = "HARNESS:" + type(e).__name__, [], True
+            recs.append(dict(exc=name, bases=bases, isexc=isexc, op=op))
+            items.append(("api", dict(cfg=cfgname, op=client + "." + op, mutant=m)))
+            chk.case(("public-api", client, cfgname, op, mi), nontrivial=m["why"] != "")
+            npub += 1
+        if len(recs) >= 3000:
+            flush("ApiBatch")
     # odd privacy parameter / ciphertext sizes through real DES / AES sessions
     for cfgname in ("v3-md5-des", "v3-sha1-aes"):
         cfg = std[cfgname]
@@ -214,7 +305,7 @@ def run(tier):
             flush("ApiBatch")
     flush("ApiBatch")
     rec.close()
-    print("  api: %d session cases; %d batches" % (len(cases), len(batches)), flush=True)
+    print("  api: %d session cases (+ %d through the public sync/async API); %d batches" % (len(cases), npub, len(batches)), flush=True)
     v = trace.validate_parallel("TraceCodec.tla", "TraceCodec.cfg", rec.events, [(a, b) for a, b, _, _ in batches], k=12, name="c01")
     for i, r in enumerate(v["results"]):
         chk.add_tlc(r, "TraceCodec(c01)#%d" % i)
